@@ -3,7 +3,10 @@
 package main
 
 import (
+	"fmt"
 	"strings"
+
+	"github.com/mmcloughlin/addchain/acc/ast"
 
 	"verif/harness/acclib"
 	"verif/harness/lib"
@@ -19,13 +22,33 @@ func gen(tier string, r *lib.Rand, emit func(string)) {
 	for _, s := range acclib.Rejections {
 		emit("load " + hex(s))
 	}
+	// deep nesting: compared with the model up to depth `deep` (the Gallina parser is the un-memoised PEG,
+	// exponential in the depth), beyond that the implementation alone must answer within 2 s
+	deep := 12
+	depths := []int{20, 40, 100, 200}
+	if tier == "thorough" {
+		deep = 14
+		depths = append(depths, 1000, 5000)
+	}
+	for k := 0; k <= deep; k++ {
+		emit(fmt.Sprintf("deepparse %d", k))
+		emit("load " + hex(acclib.DeepSource(k)))
+		for _, e := range acclib.NestedTrees(k) {
+			t := &ast.Chain{Statements: []ast.Statement{{Name: "x", Expr: ast.Operand(0)}, {Expr: e}}}
+			emit("parsex " + hex(acclib.RenderScript(r, t, false)) + " " + acclib.EncScript(t))
+			emit("load " + hex(acclib.RenderScript(r, t, false)))
+		}
+	}
+	for _, k := range depths {
+		emit(fmt.Sprintf("deepparse %d", k))
+	}
 	// (a) every token sequence up to toklen
 	acclib.TokenSequences(toklen, func(src string) { emit("load " + hex(src)) })
 	for n := toklen + 1; n <= smalllen; n++ {
 		acclib.SequencesOver(acclib.SmallTokens, n, func(src string) { emit("load " + hex(src)) })
 	}
-	for i := 0; i < nrand; i++ {
-		emit("load " + hex(acclib.RandomTokenSequence(r, toklen+1+r.Intn(3))))
+	for i := 0; i < 8*nrand; i++ {
+		emit("load " + hex(acclib.RandomTokenSequence(r, toklen+1+r.Intn(4))))
 	}
 	// (b) generated scripts: the text is rendered from a known tree
 	var srcs []string
@@ -75,6 +98,9 @@ func gen(tier string, r *lib.Rand, emit func(string)) {
 func nontrivial(c, res string) bool {
 	// parsed and contains at least two operators
 	f := strings.Split(res, " ")
+	if strings.HasPrefix(c, "deepparse") {
+		return res == "ok"
+	}
 	var enc string
 	switch {
 	case f[0] == "ok" && len(f) >= 2 && !strings.HasPrefix(c, "loadtree"):
